@@ -26,7 +26,7 @@ RULE += ('; also: live persisters with the writing instance running on (lost wor
 ASSUMPTIONS = ['steps depend only on persisted state by construction (trace and scripts live in persisted members / ctx / inputs)',
                'WorkChains waiting on futures are not checkpoint points (they cannot be saved)']
 REQUIRED = ['loaded_twice', 'checkpoint_at_every_boundary', 'paused_hook_checkpoints', 'restores', 'kinds/process', 'kinds/outline', 'transport/pickle', 'crash_in_wait', 'multi_restore', 'traces_compared', 'ctx_compared',
-            'inputs/none', 'inputs/empty', 'inputs/given', 'outline_nodes/if', 'outline_nodes/while', 'elif_or_else_body_crash', 'lost_work_restores', 'transport/mem-live', 'transport/pkfile-live', 'transport/bundle-live', 'codec_processes', 'midstep_saves', 'loaded_with_other_loop_current']
+            'inputs/none', 'inputs/empty', 'inputs/given', 'outline_nodes/if', 'outline_nodes/while', 'elif_or_else_body_crash', 'lost_work_restores', 'transport/mem-live', 'transport/pkfile-live', 'transport/bundle-live', 'codec_processes', 'midstep_saves', 'loaded_with_other_loop_current', 'midstep_restores', 'earlier_checkpoints_in_the_same_state']
 BOUNDS = {'quick': 'basic family + 12 random programs, 60 outlines, crash subsets <=2', 'thorough': '+150 random programs, 800 outlines, subsets <=3, persister/YAML transports'}
 
 
@@ -132,6 +132,11 @@ def gen_cases(tier, seed):
         for k in rng.sample(range(nb - 1), min(nb - 1, 3 if tier == 'quick' else 6)):
             yield {'kind': 'outline', 'ast': ast, 'preds': preds, 'rets': rets, 'emit': i % 2 == 0, 'crash': [], 'paused_crash': k,
                    'transport': rng.choice(transports)}
+        # a checkpoint written in the middle of step k (by the step itself), after one written on entering the same RUNNING state (what a
+        # persisting observer does); the instance is lost during that step and the process goes on from the later checkpoint
+        for k in rng.sample(range(nb - 1), min(nb - 1, 2 if tier == 'quick' else 5)):
+            # (the steps return None here: what a scripted step returns goes by the number of step calls made, which a step run again shifts)
+            yield {'kind': 'outline-midstep', 'ast': ast, 'preds': preds, 'rets': [], 'emit': i % 2 == 0, 'crash': [], 'midstep': k, 'transport': 'pickle'}
 
 
 def _transport(kind, workdir):
@@ -180,8 +185,85 @@ def _summary(r):
 _REF = {}
 
 
+class _SavingObserver(plumpy.ProcessListener):
+    """Writes (and throws away) a checkpoint whenever the process enters RUNNING or WAITING, as a persisting observer would."""
+
+    def __init__(self):
+        super().__init__()
+        self.saves = 0
+
+    def on_process_running(self, process):
+        plumpy.Bundle(process)
+        self.saves += 1
+
+    on_process_waiting = on_process_running
+
+
+def _run_midstep(case):
+    """The instance is lost in the middle of a step, after that step wrote a checkpoint: going on from it, the step in progress is the
+    first thing that runs (again, or its remainder is considered done -- both are accepted), no predicate decided before is asked
+    again, and from there on calls and result are those of the uninterrupted run."""
+    from pv.driver import BudgetExceeded, Driver
+    V = judges.V
+    obs = {'midstep_restores': 0, 'kinds': {'outline-midstep': 1}}
+    cls = outlines.outline_class(case['ast'])
+    exp_trace, exp_result, how = outlines.interpret(case['ast'], case['preds'], case['rets'], max_calls=80)
+    k = case['midstep']
+    inputs = {'preds': list(case['preds']), 'rets': list(case['rets']), 'emit': case['emit'], 'midsave_keep': k}
+    del outlines.MIDSNAPS[:]
+    with Driver(4000) as drv:
+        wc = cls(inputs=dict(inputs), loop=drv.loop)
+        observer = _SavingObserver()
+        wc.add_process_listener(observer)
+        drv.loop.create_task(wc.step_until_terminated())
+        try:
+            drv.pump()
+        except BudgetExceeded:
+            return {'viol': [], 'obs': obs, 'inconclusive': 'budget', 'key': case, 'nontrivial': False}
+        ref_state, ref_result = wc.state.value, (wc.result() if wc.state.value == 'finished' else None)
+        ref_tr = list(wc.ctx.get('tr', []))
+    if not outlines.MIDSNAPS or ref_state != 'finished':
+        return {'viol': [], 'obs': obs, 'inconclusive': 'step-not-reached' if not outlines.MIDSNAPS else 'reference-not-finished', 'key': case, 'nontrivial': False}
+    snap = outlines.MIDSNAPS[0]
+    del outlines.MIDSNAPS[:]
+    viol = []
+    import pickle
+    with Driver(4000) as drv:
+        try:
+            wc2 = pickle.loads(snap).unbundle(plumpy.LoadSaveContext(loop=drv.loop))
+        except Exception as exc:  # noqa: BLE001
+            viol.append(V('restore-raised', 'restore-raised:midstep:%s' % type(exc).__name__, 'loading the checkpoint written in the middle of step %d raised %r' % (k, exc)))
+            return {'viol': viol, 'obs': obs, 'key': case, 'nontrivial': True}
+        done_before = list(wc2.ctx.get('tr', []))
+        drv.loop.create_task(wc2.step_until_terminated())
+        try:
+            drv.pump()
+        except BudgetExceeded:
+            return {'viol': [], 'obs': obs, 'inconclusive': 'budget', 'key': case, 'nontrivial': False}
+        state, result = wc2.state.value, (wc2.result() if wc2.state.value == 'finished' else None)
+        tr = list(wc2.ctx.get('tr', []))
+    del outlines.MIDSNAPS[:]
+    obs['midstep_restores'] = 1
+    obs['earlier_checkpoints_in_the_same_state'] = int(observer.saves > 0)
+    after = tr[len(done_before):]
+    n = len(done_before)  # (the step in progress had recorded itself already: it is the last of these)
+    accepted = [ref_tr[n - 1:], ref_tr[n:]]
+    if done_before != ref_tr[:n]:
+        viol.append(V('restored-state-differs', 'restored-state-differs:midstep', 'the checkpoint written in step %d holds the calls %s, the run had made %s' % (k, done_before, ref_tr[:n])))
+    elif after not in accepted:
+        viol.append(V('step-differs', 'step-differs:midstep', 'going on from the checkpoint written in the middle of step %d (calls so far %s) the calls are %s; the uninterrupted run '
+                      'goes on with %s (outline %s)' % (k, done_before, after, ref_tr[n - 1:], c09_shape(case))))
+    elif state != ref_state or programs._jsonable(result) != programs._jsonable(ref_result):
+        viol.append(V('final-result', 'final-result:midstep', 'going on from the checkpoint written in the middle of step %d ends %s with %r, the uninterrupted run %s with %r' % (
+            k, state, result, ref_state, ref_result)))
+    return {'viol': viol, 'obs': obs, 'key': case, 'nontrivial': True,
+            'sample': {'kind': 'outline-midstep', 'what': c09_shape(case), 'step': k, 'calls_before': done_before, 'calls_after': after}}
+
+
 def run_case(case):
     V = judges.V
+    if case['kind'] == 'outline-midstep':
+        return _run_midstep(case)
     obs = {'restores': 0, 'kinds': {case['kind']: 1}, 'transport': {case['transport']: 1}, 'crash_in_wait': 0, 'multi_restore': 0, 'traces_compared': 0,
            'ctx_compared': 0, 'inputs': {}, 'outline_nodes': {}, 'elif_or_else_body_crash': 0, 'lost_work_restores': 0}
     workdir = tempfile.mkdtemp(prefix='c08-', dir=os.environ.get('PV_WORK') or None)
